@@ -35,7 +35,8 @@ META = dict(
                "any change before the marker changes the verified triple; that GCM rejects it is assumed and tested "
                "(every single-bit flip). Tie to the code: aes.py's own encrypt/decrypt are executed with the model's "
                "toy cipher injected and compared byte for byte with the model run in Coq; with the real AES the "
-               "model's padding/encoding/slicing are compared with what aes.py handed to and got from PyCryptodome.",
+               "model's padding/encoding/slicing are compared with what aes.py handed to and got from PyCryptodome; "
+               "the oracle also keeps ONE instance per nonce length 8..32 alive for 160 (thorough 700) messages.",
     level_note="Trusted: Coq kernel/vm_compute; harness (scripted get_random_bytes, spy/toy replacement of "
                "Crypto.Cipher.AES.new, Python mirror of the toy cipher); PyCryptodome AES-GCM and CPython's UTF-8 "
                "codec as characterised by the premises; CSPRNG non-repetition. Partial: unforgeability of GCM is "
@@ -645,6 +646,34 @@ def check_nonces(res, key, n, m, text, batch):
                                                draw=list(d)), dict(nonce_field=list(nonce_field(o, n, m) or b"")))
 
 
+def seq_text(i):
+    return [ord(ch) for ch in "m%d" % i] + [120] * (i % 5)
+
+
+def check_sequence(res, key, n, m, count, record=True):
+    """ONE long-lived instance encrypts `count` messages: each must round-trip, reach min_length, end in the marker,
+    and no nonce may repeat.  -> index of the first bad message or None"""
+    c = construct(key, n, m)
+    seen = set()
+    for i in range(count):
+        text = seq_text(i)
+        before = len(res.failures)
+        case = dict(kind="sequence", key=key, nonce_length=n, mac_length=m, count=i + 1, text=text)
+        out = check_roundtrip(res, c, key, n, m, text)
+        if len(res.failures) > before:
+            for f in res.failures[before:]:
+                f["case"] = case
+                f["what"] = "message %d of one instance: %s" % (i + 1, f["what"])
+                f["signature"] = "sequence-" + f["signature"]
+            return i
+        nf = nonce_field(out, n, m)
+        if nf in seen:
+            fail(res, "sequence-nonce-reused", "message %d of one instance reuses the nonce of an earlier message" % (i + 1), case)
+            return i
+        seen.add(nf)
+    return None
+
+
 def fsize(f):
     c = f["case"]
     t = c.get("text", [])
@@ -707,6 +736,17 @@ def run_oracle(ctx, res):
             key, _ = inst[(k, n, m)]
             check_nonces(res, key, n, m, gen_text(rng, rng.choice([0, 1, 16, 40]), "ascii"), 64 if q else 256)
             n_nonce += 1
+    # long-lived instances: every nonce length, one instance, many messages
+    n_seq = 0
+    per = 160 if q else 700
+    for n in range(8, 33):
+        k = (16, 24, 32)[n % 3]
+        m = 4 + (n * 5) % 13
+        key = gen_key(rng, k)
+        res.note_case(("seq", k, n, m), True)
+        check_sequence(res, key, n, m, per)
+        n_seq += per
+    res.extra["oracle_messages_on_long_lived_instances"] = n_seq
     res.extra["oracle_roundtrips"] = n_rt
     res.extra["oracle_tampered_messages"] = n_tamper
     res.extra["oracle_single_bit_flips"] = n_flip
@@ -761,6 +801,17 @@ def replay(obj):
     common.impl_modules_fresh()
     case = obj.get("case") or {}
     kind = case.get("kind")
+    if kind == "sequence":
+        key, n, m = case["key"], case["nonce_length"], case["mac_length"]
+        print("one BoboDistributedCryptoAES(%r, nonce_length=%d, mac_length=%d) encrypts %d messages"
+              % (text_of(key), n, m, case["count"]))
+        res = common.Result()
+        bad = check_sequence(res, key, n, m, case["count"])
+        for f in res.failures:
+            print("implementation:", f["what"])
+        print("every message of the sequence round-trips with a fresh nonce" if bad is None else
+              "message %d is not decryptable / well-formed / fresh" % (bad + 1))
+        return 1 if bad is not None else 0
     if kind not in ("roundtrip", "tamper", "nonce-batch", "nonce-draw"):
         print(obj)
         return 0
